@@ -9,6 +9,9 @@ from .model import Model, Mod, dotted_name, src, member_kind, DEAD_MODULES
 MUTATORS = {"append", "extend", "update", "pop", "popitem", "clear", "insert", "remove", "sort", "reverse", "add", "discard",
             "setdefault", "fill", "resize", "itemset", "put", "partition", "define", "load_definitions"}
 # numpy.asarray / asanyarray are NOT fresh: they return their argument when it already is an ndarray
+NUMPY_VIEW_MAKERS = {"asarray", "asanyarray", "ascontiguousarray", "asfortranarray", "atleast_1d", "atleast_2d", "atleast_3d", "ravel", "reshape", "squeeze",
+                     "transpose", "swapaxes", "moveaxis", "rollaxis", "diagonal", "broadcast_to", "broadcast_arrays", "expand_dims", "real", "imag", "view",
+                     "split", "array_split", "hsplit", "vsplit", "flip", "fliplr", "flipud", "rot90", "nditer", "lib", "require", "ndarray", "frombuffer"}
 FRESH_CALLS = {"copy", "deepcopy", "array", "zeros", "ones", "empty", "DataFrame", "dict", "list", "set", "tuple",
                "read_table", "read_csv", "linspace", "arange", "copy.copy", "copy.deepcopy"}
 AMBIENT = ("time.", "datetime.", "random.", "numpy.random.", "uuid.", "secrets.", "os.environ", "os.getcwd", "os.getpid",
@@ -35,6 +38,9 @@ def is_fresh_expr(n) -> bool:
     if isinstance(n, ast.Call):
         name = dotted_name(n.func) or ""
         last = name.split(".")[-1]
+        if name.split(".")[0] in ("numpy", "np", "scipy", "math") and last not in NUMPY_VIEW_MAKERS and "." in name:
+            # numpy / scipy functions compute a new array; the exceptions hand back (a view of) their argument
+            return not any(kw.arg in ("out", "copy") and not (isinstance(kw.value, ast.Constant) and kw.value.value in (None, True)) for kw in n.keywords)
         if last in FRESH_CALLS or name in FRESH_CALLS:
             # numpy.array(x, copy=False) / x.astype(t, copy=False) hand back their argument
             return not any(kw.arg == "copy" and isinstance(kw.value, ast.Constant) and kw.value.value is False for kw in n.keywords)
